@@ -106,6 +106,9 @@ func judge(h *Header, evs []Ev) *judgement {
 	// ---------- offers, blacklists, return value ----------
 	type rejection struct{ peer, at int }
 	var rejections []rejection
+	offerRejects := map[int][]int{} // offer-ret event (REJECT_SENDER) -> peers certainly rejected by it
+	reconnects := map[[2]int]int{}  // (peer, generation) -> event number of the reconnect
+	var callNs []int                // event numbers of app / provider calls (the syncer has finished handling every earlier response)
 	rejectedKeys := map[string]int{}
 	rejectedFormats := map[uint32]int{}
 	stopped := map[int]int{}
@@ -125,7 +128,33 @@ func judge(h *Header, evs []Ev) *judgement {
 		case "peer-stop":
 			stopped[e.P] = e.N
 			j.counts["peer stopped mid-restore"]++
+		case "peer-reconnect":
+			reconnects[[2]int{e.P, e.G}] = e.N
+			j.counts["peer came back under the same ID"]++
+		case "req-chunk":
+			// a request that arrived over a connection made after the peer had certainly been rejected
+			if rc, ok := reconnects[[2]int{e.P, e.G}]; ok && e.G >= 2 {
+				for _, r := range rejections {
+					if r.peer != e.P || r.at > rc {
+						continue
+					}
+					certain := false
+					for _, n := range callNs {
+						if n > r.at && n < rc {
+							certain = true
+						}
+					}
+					if certain && j.counts["chunk request sent to a rejected sender"] == 0 {
+						j.counts["chunk request sent to a rejected sender"]++
+						j.add("chunk-requested-from-rejected-sender",
+							fmt.Sprintf("the node asked peer %d (%s) for chunk %d of snapshot %d/%d over a connection established at event %d, after the app had rejected that sender at event %d", e.P, h.PeerIDs[e.P], e.I, e.H, e.F, rc, r.at), e.N, e)
+						break
+					}
+				}
+				j.counts["chunk request seen by a peer after it came back"]++
+			}
 		case "sp-call":
+			callNs = append(callNs, e.N)
 			j.counts["provider call "+e.M]++
 		case "sp-ret":
 			lastSP = e
@@ -138,6 +167,7 @@ func judge(h *Header, evs []Ev) *judgement {
 				afterRetrySnapshot = false
 			}
 		case "offer-call":
+			callNs = append(callNs, e.N)
 			offers++
 			key := snapKeyOf(e.H, e.F, e.NCh, e.Hash, e.Meta)
 			t, verifiable := h.Truth[e.H]
@@ -229,9 +259,11 @@ func judge(h *Header, evs []Ev) *judgement {
 						}
 					}
 					rejections = append(rejections, rejection{a.peer, e.N})
+					offerRejects[e.N] = append(offerRejects[e.N], a.peer)
 				}
 			}
 		case "apply-call":
+			callNs = append(callNs, e.N)
 			j.counts["ApplySnapshotChunk calls"]++
 		case "apply-ret":
 			lastApplyRet = e
@@ -347,14 +379,14 @@ func judge(h *Header, evs []Ev) *judgement {
 	}
 
 	// ---------- chunk queue model ----------
-	m := &model{h: h, evs: evs, arr: arr, peerOf: peerOf}
+	m := &model{h: h, evs: evs, arr: arr, peerOf: peerOf, offerRejects: offerRejects}
 	m.prepass()
 	strictFail := m.run(true)
 	j.maxStates, j.modelEvents = m.maxStates, m.checked
 	j.internal = append(j.internal, m.internal...)
 	j.overflow = m.overflow
 	if strictFail != nil {
-		m2 := &model{h: h, evs: evs, arr: arr, peerOf: peerOf}
+		m2 := &model{h: h, evs: evs, arr: arr, peerOf: peerOf, offerRejects: offerRejects}
 		m2.prepass()
 		superFail := m2.run(false)
 		j.internal = append(j.internal, m2.internal...)
@@ -384,9 +416,41 @@ func judge(h *Header, evs []Ev) *judgement {
 				}
 			}
 			sort.Ints(cands)
-			j.add("rejected-sender-chunk-accepted-again",
-				fmt.Sprintf("ApplySnapshotChunk(index %d) carries sender %s, which the app had rejected at event(s) %v; the chunk was sent by that peer at event(s) %v; only a queue that keeps accepting chunks from rejected senders explains the call", e.I, e.Sender, rejAt, cands),
-				e.N, map[string]interface{}{"apply_call": e, "model": strictFail.what})
+			// Was every candidate chunk in flight while the syncer was handling the rejecting response?
+			// (sent before the syncer's next call, not yet acknowledged when the response was logged):
+			// then the chunk raced with RejectPeer + DiscardSender instead of arriving after them.
+			race := false
+			for _, r := range rejections {
+				if r.peer != e.P || r.at > e.N {
+					continue
+				}
+				next := 1 << 60
+				for _, n := range callNs {
+					if n > r.at && n < next {
+						next = n
+					}
+				}
+				all := len(cands) > 0
+				for _, a := range arr {
+					if a.peer == e.P && a.i == e.I && a.b == e.B && a.start < e.N {
+						if !(a.start < next && (a.ack == 0 || a.ack > r.at)) {
+							all = false
+						}
+					}
+				}
+				if all {
+					race = true
+				}
+			}
+			if race {
+				j.add("chunk-in-flight-during-sender-rejection-kept",
+					fmt.Sprintf("ApplySnapshotChunk(index %d) carries sender %s, rejected by the app at event(s) %v; the chunk (sent at event(s) %v) was being processed by the node while the syncer handled that response: it was neither discarded with the sender's other unapplied chunks nor refused as coming from a rejected sender", e.I, e.Sender, rejAt, cands),
+					e.N, map[string]interface{}{"apply_call": e, "model": strictFail.what})
+			} else {
+				j.add("rejected-sender-chunk-accepted-again",
+					fmt.Sprintf("ApplySnapshotChunk(index %d) carries sender %s, which the app had rejected at event(s) %v; the chunk was sent by that peer at event(s) %v; only a queue that keeps accepting chunks from rejected senders explains the call", e.I, e.Sender, rejAt, cands),
+					e.N, map[string]interface{}{"apply_call": e, "model": strictFail.what})
+			}
 		}
 		if superFail != nil {
 			j.add(superFail.key, superFail.what, superFail.at, superFail.ev)
